@@ -573,6 +573,25 @@ fn trade_enable_case(offset: i64, v2: bool) -> Result<u64, String> {
         return Err(format!("oracle stores trade_enable_timestamp {stored}, requested {tet}"));
     }
     let mut checked = 0;
+    if !no_te && offset >= 1 {
+        // the fee authority re-tunes the pool before it opens: the opening time stays what it was, and trading stays refused
+        let cs = aw::CSet { filter: Some(31), ..Default::default() };
+        let st = aw::apply(&l, &w, &AOp::SetConsts(cs));
+        if !st.outcome.ok() {
+            return Err(format!("set_adaptive_fee_constants on a pool that is not yet open for trading failed: {}", st.outcome.short()));
+        }
+        let o = decode::oracle(st.ledger.data(&w.pool.oracle));
+        if o.trade_enable_timestamp != tet {
+            return Err(format!("set_adaptive_fee_constants before the pool opened changed its trade-enable timestamp from {tet} to {}", o.trade_enable_timestamp));
+        }
+        let mut cur = st.ledger.clone();
+        cur.unix_ts = tet as i64 - 1;
+        let s2 = aw::apply(&cur, &w, &sw(true, true, 1_000, Tgt::None, v2));
+        checked += 1;
+        if s2.outcome.code() != Some(TRADE_IS_NOT_ENABLED) {
+            return Err(format!("after set_adaptive_fee_constants, a swap 1s before trade_enable_timestamp: {} (expected TradeIsNotEnabled 6064)", s2.outcome.short()));
+        }
+    }
     for (dt, a_to_b) in [(-3600i64, true), (-1, true), (-1, false), (0, true), (0, false), (1, true), (5, false), (29, true), (30, false), (31, true), (599, false), (600, true), (3599, false), (3600, true), (5000, false)] {
         let mut cur = l.clone();
         cur.unix_ts = tet as i64 + dt;
